@@ -14,6 +14,7 @@ import (
 	"strings"
 	"syscall"
 
+	"github.com/reeflective/readline/internal/core"
 	"github.com/reeflective/readline/internal/verifrt"
 	vt "github.com/reeflective/readline/internal/verifvt"
 	"golang.org/x/sys/unix"
@@ -73,6 +74,8 @@ func VerifSchedRun(specJSON []byte) []byte {
 
 func verifSchedRun(spec *VerifSchedSpec) (res *VerifSchedResult) {
 	res = &VerifSchedResult{}
+	// a session-engine job run earlier by this process leaves its gated reader installed
+	core.Stdin = verifrt.Stdin
 	setSize := func(w int) {
 		ws := &unix.Winsize{Row: uint16(spec.H), Col: uint16(w)}
 		unix.IoctlSetWinsize(spec.MasterFD, unix.TIOCSWINSZ, ws)
